@@ -518,4 +518,40 @@ example : (toList (exOps.foldl applyOp bempty)).map (·.1) = [1024, 32768, 0, 5]
 example : bfind (exOps.foldl applyOp bempty) 0 = some 11 ∧ bfind (exOps.foldl applyOp bempty) 512 = none ∧
     (exOps.foldl applyOp (bempty : BMap Nat)).capacity = 4 ∧ (exOps.foldl applyOp (bempty : BMap Nat)).size = 4 := by decide +kernel
 
+/-- **bank-file loads keep the sections apart**: whatever the two bank-number bytes of a file hold (0..255 each), the key under
+    which `LoadBank` stores the bank carries the percussion tag exactly for the percussive section — a melodic bank can never
+    replace a percussion bank (with the unreduced MSB, 0x80 did exactly that: `unmasked_msb_collides`) -/
+theorem loaded_key_section (perc msb lsb : Nat) (hp : perc ≤ 1) (hl : lsb < 256) :
+    keyOf perc (msb % 128) lsb / percussionTag % 2 = perc := by
+  unfold keyOf percussionTag
+  have hm : msb % 128 < 128 := Nat.mod_lt _ (by decide)
+  by_cases h : perc = 0
+  · subst h; simp; omega
+  · have : perc = 1 := by omega
+    subst this; simp; omega
+
+theorem unmasked_msb_collides : keyOf 0 128 0 = keyOf 1 0 0 := by decide
+
+/-- … and for bank numbers inside the API's key space (7 bits each) the identifier read back is the one in the file -/
+theorem loaded_key_id (perc msb lsb : Nat) (hp : perc ≤ 1) (hm : msb < 128) (hl : lsb < 128) :
+    bankId (keyOf perc (msb % 128) lsb) = (perc, msb, lsb) := by
+  unfold bankId keyOf percussionTag
+  rw [Nat.mod_eq_of_lt hm]
+  by_cases h : perc = 0
+  · subst h
+    simp only [ne_eq, not_true_eq_false, if_false, Nat.add_zero, Prod.mk.injEq]
+    refine ⟨?_, ?_, ?_⟩
+    · have : (msb * 256 + lsb) / 32768 % 2 = 0 := by omega
+      simp [this]
+    · omega
+    · omega
+  · have : perc = 1 := by omega
+    subst this
+    simp only [ne_eq, Nat.succ_ne_zero, not_false_eq_true, if_true, Prod.mk.injEq]
+    refine ⟨?_, ?_, ?_⟩
+    · have : (msb * 256 + lsb + 32768) / 32768 % 2 = 1 := by omega
+      simp; omega
+    · omega
+    · omega
+
 end Opn.C16
